@@ -15,4 +15,9 @@ import WmModel.Props.C13Tie
 #print axioms Wm.Poison.stamp_nodup
 #print axioms Wm.Poison.stream_eq_map
 #print axioms Wm.Poison.stream_publishes_once_each
+#print axioms Wm.Poison.stateful_filter_consulted_once
+#print axioms Wm.Poison.stateful_eq_pure
+#print axioms Wm.Poison.stateful_acked_implies_handled_or_poisoned
+#print axioms Wm.Poison.stateful_verdict
+#print axioms Wm.Poison.budget_filter_stream
 #print axioms Wm.GoPoison.extracted_middleware_eq_model
